@@ -603,7 +603,10 @@ func (x *Exec) convert(v Value, from, to types.Type) Value {
 				}
 				return x.floatConst(float64(t.SVal()), x.width(to))
 			}
-			x.notEncoded("symbolic int->float conversion")
+			if fb.Info()&types.IsUnsigned != 0 {
+				return s.FP(smt.OpFPFromUInt, x.width(to), t)
+			}
+			return s.FP(smt.OpFPFromSInt, x.width(to), t)
 		case fb.Info()&types.IsFloat != 0 && tb.Info()&types.IsInteger != 0:
 			t := v.(*smt.Term)
 			if t.IsConst() {
